@@ -20,6 +20,7 @@ import time
 
 import vlib
 from props import c11_idlgen as G
+from props import c11_validate
 
 HARNESS_BINS = ["vh_c11"]
 NEEDS_FRUGAL = True
@@ -190,7 +191,8 @@ def ty_tok(t):
 
 
 def tree_tok(f):
-    vclass = 0 if f["valid"] else (1 if f["verr"].startswith(TYPE_ERR) else 2)
+    # "Invalid exception type X for S.m: not an exception" is not a failure of isValidType
+    vclass = 0 if f["valid"] else (1 if f["verr"].startswith(TYPE_ERR) and not f["verr"].endswith("not an exception") else 2)
     return [[[bytes.fromhex(n), ty_tok(t)] for n, t in f["typedefs"]],
             [bytes.fromhex(x) for x in f["structs"]], [bytes.fromhex(x) for x in f["unions"]],
             [bytes.fromhex(x) for x in f["exceptions"]], [bytes.fromhex(x) for x in f["enums"]],
@@ -840,6 +842,10 @@ def run(ctx, br):
     finally:
         shutil.rmtree(lab_root, ignore_errors=True)
 
+    # ---------------- (C) the validation pass and include resolution inside the model ----------
+    vcov, v_evals, v_distinct, v_judged, v_viol = c11_validate.run(ctx, quick)
+    viol += v_viol
+
     # replays that name a failing input first (only the first 20 are written)
     ctx.violations.sort(key=lambda v: bool(v["replay"].get("no_failing_input_found")))
     ctx.assumptions += [
@@ -853,11 +859,11 @@ def run(ctx, br):
         + sum(1 for c, r in zip(tcases, tr) if r.get("queries")) + len({(j["pi"], j["gen"]) for j in vjobs}) \
         + len({json.dumps(printable(j["files"]), sort_keys=True) for j in ijobs})
     cov.update({
-        "evaluations": len(ccases) + len(gcases) + 1 + len(tcases) + len(vjobs) + len(ijobs),
-        "distinct_nontrivial": distinct,
+        "evaluations": len(ccases) + len(gcases) + 1 + len(tcases) + len(vjobs) + len(ijobs) + v_evals,
+        "distinct_nontrivial": distinct + v_distinct,
         "rule": "distinct by input: casing (function, non-empty string), -gen values containing ':', programs on which type "
                 "questions were asked, (valid program, -gen value) pairs, invalid texts",
-        "traces_validated_against_impl": len([v for v in verdicts if v >= 0]),
+        "traces_validated_against_impl": len([v for v in verdicts if v >= 0]) + v_judged,
         "judge_cases": len(judge_cases),
         "judge_mismatches": len(mism),
         "oracle_failures": viol,
@@ -881,4 +887,5 @@ def run(ctx, br):
             {"invalid": ijobs[2]["kind"], "exit": ijobs[2]["rc"], "output": ijobs[2]["out"][:200]},
         ],
     })
+    cov.update(vcov)
     return cov
